@@ -131,3 +131,24 @@ def theSpec {α} : List α → TheOutcome α
   | _ :: _ :: _ => .multipleSolutions
 
 end KrroodVerif.Quant
+
+namespace KrroodVerif.Quant
+
+/-- what a consumer observes that asks an evaluation for at most `k` results (`none`: until it ends) and then keeps
+the iterator alive without advancing it -/
+inductive Seen where
+  | stillOpen
+  | ended (o : Outcome)
+  deriving Repr, DecidableEq
+
+def consume {α} (k : Option Nat) (r : List α × Outcome) : List α × Seen :=
+  match k with
+  | none => (r.1, .ended r.2)
+  | some k => if k ≤ r.1.length then (r.1.take k, .stillOpen) else (r.1, .ended r.2)
+
+/-- a history of evaluations of ONE query object: every evaluation counts from zero — earlier evaluations, finished
+or still suspended, leave nothing behind (the counter is local to the generator frame) -/
+def history {α} (c : Option Constraint) (sols : List α) (ks : List (Option Nat)) : List (List α × Seen) :=
+  ks.map fun k => consume k (run c sols)
+
+end KrroodVerif.Quant
